@@ -538,22 +538,58 @@ BY_NAME = {d.name: d for d in ALL}
 # --------------------------------------------------------------------------- model runs + comparison
 
 
-def coq_case(det: Det, cfg, ops, samples=None):
+def coq_cfg_pos(det: Det, cfg, k="0"):
+    """The configuration as an explicit constructor application over the number system FloatP k."""
+    lit = det.coq_cfg(cfg).strip()
+    assert lit.startswith("{|") and lit.endswith("|}")
+    vals = [part.split(":=", 1)[1].strip() for part in lit[2:-2].split(";")]
+    ty = det.coq_cfg_ty.split()[0]
+    a = f"(FloatP {k})" if " " in det.coq_cfg_ty else ""
+    return f"(@Build_{ty} {a} " + " ".join(f"({v})" for v in vals) + ")"
+
+
+def obs_fn(det: Det, k="0"):
+    return det.coq_obs if det.coq_obs == "obs_stepd" else f"({det.coq_obs} {k})"
+
+
+def coq_D(det: Det, k="0"):
+    return det.coq_D.replace("FloatA", f"(FloatP {k})")
+
+
+def coq_case(det: Det, cfg, ops, samples=None, k="0"):
     if isinstance(det, KSWINDet):
         opsx = det.coq_ops_samples(ops, samples)
     else:
         opsx = det.coq_ops(ops)
-    return f"run_obs {det.coq_D} {det.coq_obs} ({det.coq_cfg(cfg)} : {det.coq_cfg_ty}) ({opsx})"
+    return f"run_obs {coq_D(det, k)} {obs_fn(det, k)} {coq_cfg_pos(det, cfg, k)} ({opsx})"
 
 
-def run_models(name, cases, shard=60):
+PERTURB = ["0x1p-40", "(-0x1p-40)"]  # relative perturbation of ln / exp used to recognise near-tied verdicts
+
+
+def run_models(name, cases, shard=60, k="0"):
     """cases: list of (det, cfg, ops, samples|None) -> list of per-op observations (model)."""
-    exprs = [coq_case(*c) for c in cases]
+    exprs = [coq_case(*c, k=k) for c in cases]
     res = coq_eval(name, HDR, exprs, shard=shard)
     out = []
     for r in res:
         out.append([(bool(o[0]), bool(o[1]), int(o[2]), [float(x) for x in o[3]]) for o in r])
     return out
+
+
+def near_tie(name, case, impl, step):
+    """A flag disagreement at `step`: is the verdict numerically tied?  True iff the model run with
+    ln/exp perturbed by +-2^-40 (relative) reproduces the implementation's flags at that step."""
+    det = case[0]
+    if not det.uses_transcendentals:
+        return False
+    ops = case[2][: step + 1]
+    samples = case[3]
+    for k in PERTURB:
+        mo = run_models(name + "_tie", [(det, case[1], ops, samples)], k=k)[0]
+        if len(mo) > step and mo[step][0] == impl[step][0] and mo[step][1] == impl[step][1]:
+            return True
+    return False
 
 
 def compare_traces(impl, model, rtol=1e-9, atol=1e-12):
@@ -595,3 +631,21 @@ def gen_ops(rng, det: Det, cfg, n, resets=True):
             if ops[pos] != "R" and ops[pos - 1] != "R":
                 ops.insert(pos, "R")
     return ops
+
+
+def corr_compare(ck, name, cases, impl, models, rtol=1e-9, atol=1e-12, max_tie_checks=6):
+    """Compare implementation and model traces; flag disagreements that are numerically tied
+    (model with ln/exp perturbed by +-2^-40 reproduces the implementation) are counted, not reported."""
+    tie_checks = 0
+    for case, im, mo in zip(cases, impl, models):
+        det, cfg, ops = case[0], case[1], case[2]
+        ck.corr_cases += 1
+        d = compare_traces(im, mo, rtol, atol)
+        if d is None:
+            continue
+        if "flags" in d[1] and det.uses_transcendentals and tie_checks < max_tie_checks:
+            tie_checks += 1
+            if near_tie(name, case, im, d[0]):
+                ck.near_ties += 1
+                continue
+        ck.mismatch(f"model {det.coq_D} vs {det.name}", dict(detector=det.name, config=cfg, ops=ops[: d[0] + 1], step=d[0], diff=d[1]))
